@@ -272,7 +272,7 @@ class Contract:
             if suspends and eng.tree == "async" and getattr(self, "interfere_after", True):
                 pass
             return res
-        exc = VExc(raises[k - 1], tag={"from": label})
+        exc = VExc(raises[k - 1], tag={"from": label, "held": list(st.held), "shield": st.shield, "trace_len": len(st.trace)})
         c.exc = exc
         for lab, props, goal in self.exc_ensures(c, exc):
             eng.assume(st, eng.z_bool(goal))
@@ -455,6 +455,7 @@ class Engine:
             return True
         if z3.is_false(cond):
             return False
+        idx = len(self.oracle.trail)
         c = self.oracle.choose(2, label)
         if c == 0:
             st.pc.append(cond)
@@ -462,7 +463,9 @@ class Engine:
         else:
             st.pc.append(z3.Not(cond))
             st.log.append(f"{label}: false")
-        if not self.feasible(st):
+        # decisions replayed from the prefix were found feasible by the run that discovered them;
+        # only the flipped last decision and new ones need a solver check
+        if idx >= len(self.oracle.prefix) - 1 and not self.feasible(st):
             raise Infeasible()
         return c == 0
 
@@ -561,7 +564,7 @@ class Engine:
         v = self.coerce(st, value, kind)
         st.heap[key] = z3.Store(self.heap_arr(st, key, sort_of_kind(kind)), r, v.t)
         # publishing a local object
-        if isinstance(value, VRef):
+        if isinstance(value, VRef) and key not in self.reg.__dict__.get("non_escaping_keys", ()):
             self.escape(st, value)
 
     def escape(self, st: State, v):
@@ -577,7 +580,29 @@ class Engine:
         if self.classes.known(cls):
             self.assume(st, typ(r) == self.classes.cid(cls))
         st.local_refs.append(r)
+        st.ghost.setdefault("cls_of", {})[r.get_id()] = cls
         return VRef(r, cls)
+
+    def _shorts_of_ref(self, st, r):
+        """heap-key prefixes (class short names) whose fields an object of r's class can have"""
+        cls = st.ghost.get("cls_of", {}).get(r.get_id())
+        if cls is None:
+            return self._all_shorts()
+        cache = self.__dict__.setdefault("_shorts_cache", {})
+        if cls not in cache:
+            out = set()
+            for k in self.reg._mro(self, cls):
+                for key in self.reg.class_fields.get(k, {}).values():
+                    out.add(key.split(".", 1)[0])
+            cache[cls] = out
+        return cache[cls]
+
+    def _all_shorts(self):
+        c = self.__dict__.get("_all_shorts_cache")
+        if c is None:
+            c = {k.split(".", 1)[0] for k in self.reg.field_keys}
+            self._all_shorts_cache = c
+        return c
 
     def assume_alive(self, st: State, ref):
         r = ref.t if isinstance(ref, V) else ref
@@ -585,7 +610,8 @@ class Engine:
         self.assume(st, z3.Implies(r != 0, z3.Select(alive, r)))
 
     def havoc_heap(self, st: State, keys=None, keep_local=True):
-        """Replace non-const heap arrays by fresh ones. keys=None: every declared mutable key."""
+        """Replace non-const heap arrays by fresh ones. keys=None: every declared mutable key.
+        Objects allocated on this path and not yet published keep their fields (frame)."""
         old = dict(st.heap)
         for key, kind in self.reg.mutable_keys():
             if keys is not None and key not in keys:
@@ -593,10 +619,12 @@ class Engine:
             for sub, sort in self.reg.array_parts(key, kind):
                 st.counter += 1
                 new = z3.Const(f"H{st.counter}!{sub}", z3.ArraySort(IntS, sort))
-                if keep_local:
-                    oldarr = old.get(sub, self.initial_array(sub, sort))
+                if keep_local and sub in old and st.local_refs:
+                    oldarr = old[sub]
+                    short = key.split(".", 1)[0]
                     for r in st.local_refs:
-                        self.assume(st, z3.Select(new, r) == z3.Select(oldarr, r))
+                        if short in self._shorts_of_ref(st, r):
+                            new = z3.Store(new, r, z3.Select(oldarr, r))
                 st.heap[sub] = new
         return old
 
@@ -865,6 +893,10 @@ class Engine:
     # ---- exceptions -------------------------------------------------------------------------
     def raise_(self, st, cls: str, *args, tag=None):
         st.log.append(f"raise {cls}")
+        tag = dict(tag or {})
+        tag.setdefault("held", list(st.held))
+        tag.setdefault("shield", st.shield)
+        tag.setdefault("trace_len", len(st.trace))
         raise PyRaise(VExc(cls, args, tag=tag))
 
     def exc_matches(self, exc: VExc, handler: V) -> bool:
